@@ -7,4 +7,5 @@ def build_registry() -> Registry:
     from . import c_icao, c_wmo, c_data, c_utils, c_scaler, c_screen, lemmas
     for mod in (lemmas, c_icao, c_wmo, c_data, c_utils, c_scaler, c_screen):
         mod.register(reg)
+    c_data.finalize(reg)
     return reg
